@@ -15,8 +15,8 @@ from mc.run import Hang
 ID = "C50"
 LEVEL = "exploration"
 WATCHDOG_S = 20.0
-# length bounds: custom-delimiter alphabet, newline alphabet, unicode alphabet (characters)
-LMAX = {"quick": (6, 6, 5), "thorough": (8, 8, 7)}
+# length bounds: custom-delimiter alphabet, newline alphabet, unicode alphabet (characters), mixed custom+newline alphabet
+LMAX = {"quick": (6, 6, 5, 5), "thorough": (8, 8, 7, 6)}
 ASSUMPTIONS = [
     "sync scheduler; files live in fsspec memory:// (nothing touches disk); read_bytes/read_block only use size, seek, read and tell of the opened file, which memory:// files (BytesIO) implement like local files",
     "linedelimiter='' is not a delimiter and is outside the alphabet; linedelimiter=None means Python universal newlines "
@@ -29,17 +29,20 @@ CUSTOM_DELIMS = ("d", "dd", "de")
 NEWLINE_DELIMS = (None, "\n", "\r\n", "\r")
 UNI_DELIMS = ("d", "é", "éd")
 MULTI_DELIMS = ("d", "dd")
+MIXED_DELIMS = ("d", "dd", "d\n")  # custom (non-newline-family) delimiters over contents that ALSO contain \r and \n
 
 
 def RULE(tier):
-    a, b, c = LMAX[tier]
+    a, b, c, m = LMAX[tier]
     return (
         f"read_bytes: every content over {{x,d,e}} of length 0..{a} x delimiter in {{None,d,dd,de}} x EVERY blocksize 1..len+1 and None; "
         f"every pair of contents over {{x,d}} of length <= 3 x {{d,dd}} x blocksize None,1..4 x include_path: blocks of each file concatenate to its "
         "content, every internal boundary p has data[:p].endswith(delimiter), paths reported in order.  "
         f"read_text: the same contents x linedelimiter {{d,dd,de}} x blocksize None,1..len+1 x include_path; contents over {{x,\\n,\\r}} of length "
         f"0..{b} x linedelimiter {{None,\\n,\\r\\n,\\r}}; contents over {{x,e-acute,d}} of 0..{c} characters (utf-8, blocksizes in bytes) x "
-        "linedelimiter {d, e-acute, e-acute+d}; every pair (length <= 3) and triple (length <= 2) of contents over {x,d} x {d,dd} x "
+        f"linedelimiter {{d, e-acute, e-acute+d}}; contents over {{x,d,\\r,\\n}} of length 0..{m} x custom linedelimiter {{d, dd, d\\n}} x blocksize "
+        "None,1..len+1 (newline characters inside a custom-delimited file are data) and every pair of such contents of length <= 2 x "
+        "{d} x (blocksize None,2 | files_per_partition 1,2) x include_path; every pair (length <= 3) and triple (length <= 2) of contents over {x,d} x {d,dd} x "
         "(blocksize None,1..4 | files_per_partition 1,2,3) x include_path.  Oracle: the computed list equals, file by file, "
         "[p+delim for p in parts[:-1]] + ([parts[-1]] if parts[-1] else []) with parts = text.split(delim). "
         "non-trivial = >= 2 blocks/partitions, or >= 2 expected lines."
@@ -53,7 +56,7 @@ def _strings(alphabet, maxlen):
 
 def shards(tier):
     out = []
-    a, b, c = LMAX[tier]
+    a, b, c, m = LMAX[tier]
     n_big = 24 if tier == "quick" else 48
     for delim in (None,) + CUSTOM_DELIMS:
         for part in range(4):
@@ -67,6 +70,10 @@ def shards(tier):
     for delim in UNI_DELIMS:
         for part in range(2):
             out.append(("rtC", delim, part, 2))
+    for delim in MIXED_DELIMS:
+        for part in range(4 if tier == "quick" else 8):
+            out.append(("rtD", delim, part, 4 if tier == "quick" else 8))
+    out.append(("rtDM", "d", 0, 1))
     for delim in MULTI_DELIMS:
         out.append(("rbM", delim, 0, 1))
         for part in range(4):
@@ -78,7 +85,7 @@ def shards(tier):
 
 def cases_of(shard, tier):
     kind, delim, part, nparts = shard
-    a, b, c = LMAX[tier]
+    a, b, c, m = LMAX[tier]
     if kind == "rb1":
         for i, s in enumerate(_strings("xde", a)):
             if i % nparts != part:
@@ -105,6 +112,18 @@ def cases_of(shard, tier):
             nb = len(s.encode("utf-8"))
             for bs in [None] + list(range(1, nb + 2)):
                 yield ("rt", (s,), delim, bs, None, False)
+    elif kind == "rtD":
+        for i, s in enumerate(_strings("xd\r\n", m)):
+            if i % nparts != part:
+                continue
+            for bs in [None] + list(range(1, len(s) + 2)):
+                yield ("rt", (s,), delim, bs, None, False)
+    elif kind == "rtDM":
+        ss = _strings("xd\r\n", 2)
+        for pair in itertools.product(ss, repeat=2):
+            for bs, fpp in [(None, None), (2, None), (None, 1), (None, 2)]:
+                for ip in (False, True):
+                    yield ("rt", pair, delim, bs, fpp, ip)
     elif kind == "rbM":
         ss = _strings("xd", 3)
         for pair in itertools.product(ss, repeat=2):
